@@ -283,6 +283,10 @@ fn fix_goal(t: &T, cond: bool, st: &mut Fix) -> T {
                 st.seen = before;
                 return T::Cmp(n.clone(), vec![x]);
             }
+            ("call", 1) if matches!(&a[0], T::Cmp(tn, ta) if ta.len() == 1 && TYPE_TESTS.contains(&tn.as_str())) => {
+                st.see(&t);
+                return t.clone();
+            }
             _ => {
                 let idx = goal_args(n, a.len());
                 if !idx.is_empty() {
@@ -354,8 +358,11 @@ fn fix_goal(t: &T, cond: bool, st: &mut Fix) -> T {
         }
         T::Cmp(n, a) if n == "is" && a.len() == 2 => {
             init(unseen_vars(&a[1], st), st, "uninitialised-variable-in-arithmetic", &mut pre);
-            if matches!((&a[0], &a[1]), (T::Var(l), T::Var(_)) if st.counts.get(l).copied().unwrap_or(0) <= 1) {
-                st.found.insert("is-with-void-result-and-variable-expression");
+            // known finding: `V is W` with V void (or first seen in this branch) reads a wrong
+            // register (wrong error, wrong value, or a segmentation fault): every bare-variable
+            // expression is written W + 0
+            if matches!(&a[1], T::Var(_)) {
+                st.found.insert("is-with-bare-variable-expression");
                 if st.rewrite {
                     cmp("is", vec![a[0].clone(), cmp("+", vec![a[1].clone(), int(0)])])
                 } else {
@@ -365,10 +372,11 @@ fn fix_goal(t: &T, cond: bool, st: &mut Fix) -> T {
                 t.clone()
             }
         }
-        T::Cmp(n, a) if n == "copy_term" && a.len() == 2 && matches!(&a[0], T::Var(_)) => {
-            st.found.insert("copy_term-of-bare-variable");
+        T::Cmp(n, a) if n == "copy_term" && a.len() == 2 && !a[0].is_ground() => {
+            // known finding: copy_term/2 binds unbound permanent (stack) variables of its first argument
+            st.found.insert("copy_term-of-variables");
             if st.rewrite {
-                cmp("copy_term", vec![cmp("f", vec![a[0].clone()]), cmp("f", vec![a[1].clone()])])
+                atom("true")
             } else {
                 t.clone()
             }
@@ -412,7 +420,7 @@ pub fn known_shapes(p: &Program) -> BTreeSet<&'static str> {
 /// * an inlined type test on a variable is run through call/1;
 /// * a variable that may be uninitialised when an arithmetic goal is reached gets `V = _` first;
 /// * `V is W` with V occurring nowhere else becomes `V is W + 0`;
-/// * `copy_term(V, X)` with a bare variable V becomes `copy_term(f(V), f(X))`.
+/// * `copy_term(T, X)` with a non-ground T becomes `true`.
 pub fn sanitize(p: &Program) -> Program {
     let mut ignore = BTreeSet::new();
     Program {
